@@ -66,7 +66,16 @@ class SymTime:
         self.ms = ms
 
     def __format__(self, spec):
-        return cur().render_int(term_of(self.ms))
+        """'' / repr: the millisecond count itself (injective, like the float's repr); '.0f': Python's round-half-even to whole
+        seconds (x.5 is exact in binary, so the tie rule is the float's); '.3f': the millisecond count again; anything else is reported"""
+        ms = term_of(self.ms)
+        if spec in ("", ".3f", "r"):
+            return cur().render_int(ms)
+        if spec == ".0f":
+            q, r = ms / 1000, ms % 1000
+            up = z3.Or(r > 500, z3.And(r == 500, q % 2 == 1))
+            return cur().render_int(z3.simplify(z3.If(up, q + 1, q)))
+        raise cur()._raise(Unsupported(f"format spec {spec!r} on a symbolic timestamp"))
 
     __str__ = lambda self: cur().render_int(term_of(self.ms))  # noqa: E731
 
@@ -185,9 +194,51 @@ def validators(form: str, hdrs: Dict[str, str]) -> Dict[str, str]:
     raise KeyError(form)
 
 
+# the process time zone (seconds east of UTC), a solver variable: whatever date routine the current source uses, a GMT date must denote
+# the same instant under every zone.  The unchanged tree converts through an aware datetime and never asks for it.
+UTC_OFFSET = z3.Int("process_utc_offset")
+
+
+class _Struct:
+    """stands for the time tuple email.utils.parsedate returns for a rendered date token"""
+
+    def __init__(self, seconds: SInt):
+        self.seconds = seconds
+
+
+def parsedate_tuple_stub(s):
+    t = cur().term_of_text(s) if isinstance(s, str) and s and not s[0].isdigit() else None
+    if t is not None:
+        return _Struct(SInt(t))
+    from email.utils import parsedate
+    return parsedate(s)
+
+
+class TimeStub:
+    """stands for the `time` module: mktime / timegm on a parsed date token (mktime reads the fields as LOCAL time)"""
+
+    def __getattr__(self, k):
+        import time as _t
+        return getattr(_t, k)
+
+    @staticmethod
+    def mktime(st):
+        if isinstance(st, _Struct):
+            return SInt(term_of(st.seconds) - UTC_OFFSET)
+        import time as _t
+        return _t.mktime(st)
+
+
+def timegm_stub(st):
+    if isinstance(st, _Struct):
+        return st.seconds
+    import calendar
+    return calendar.timegm(st)
+
+
 def make_shims(osh: OsShim) -> Shims:
     s = Shims()
-    s.add(SF, os=osh, parsedate_to_datetime=parsedate_stub, int=int_seconds)
+    s.add(SF, os=osh, parsedate_to_datetime=parsedate_stub, int=int_seconds, parsedate=parsedate_tuple_stub, time=TimeStub(), timegm=timegm_stub)
     s.add(R, formatdate=formatdate_stub)
     return s
 
@@ -199,6 +250,7 @@ def job_history(job) -> report.JobResult:
     steps = job["steps"]  # list of (op, form, validators_from)
     init = job["init"]
     eng = Engine(budget_s=1200)
+    eng.solver.add(UTC_OFFSET >= -12 * 3600, UTC_OFFSET <= 14 * 3600, UTC_OFFSET % 900 == 0)
     eng.token_alphabet = "ctl"
     eng.render_opaque = True
     n = len(steps)
@@ -298,7 +350,7 @@ def job_history(job) -> report.JobResult:
         m = e.witness()
         ev = lambda t: m.eval(t, True).as_long()  # noqa: E731
         wit = {"iface": iface, "app": app_kind, "init": init, "steps": [list(s) for s in steps],
-               "states": [[ev(a), ev(b), ev(c)] for a, b, c in states], "request_instants": [ev(t) for t in T]}
+               "states": [[ev(a), ev(b), ev(c)] for a, b, c in states], "request_instants": [ev(t) for t in T], "process_utc_offset": ev(UTC_OFFSET)}
         with shims.off():
             cp = concrete_history(wit)
         if klass is not None:
@@ -346,6 +398,11 @@ def concrete_history(w) -> Optional[str]:
                 return St(base, *cur_state["s"])
             return base
         app = (mod.Files if app_kind == "files" else mod.Pages)(d)
+        import time as _t
+        off = w.get("process_utc_offset", 0)
+        old_tz = os.environ.get("TZ")
+        os.environ["TZ"] = "VRF%s%d:%02d" % ("-" if off >= 0 else "+", abs(off) // 3600, abs(off) % 3600 // 60)  # POSIX sign is inverted
+        _t.tzset()
         orig = SF.os
         SF.os = type("O", (), {"stat": staticmethod(fake_stat), "__getattr__": lambda s, k: getattr(os, k), "path": os.path})()
 
@@ -398,6 +455,11 @@ def concrete_history(w) -> Optional[str]:
             return f"exception {type(ex).__name__}: {ex}"
         finally:
             SF.os = orig
+            if old_tz is None:
+                os.environ.pop("TZ", None)
+            else:
+                os.environ["TZ"] = old_tz
+            _t.tzset()
 
 
 def jobs(tier: str):
